@@ -32,7 +32,7 @@ REQUIRED = {'direct_values': {'quick': 8000, 'thorough': 150000}, 'direct_nonpri
             'insitu_encode_evaluations': {'quick': 50000, 'thorough': 300000}, 'insitu_nonprimitive': {'quick': 4000, 'thorough': 20000},
             'replies_delivered': {'quick': 3000, 'thorough': 20000}, 'wire_replies_walked': {'quick': 3000, 'thorough': 20000},
             'history_bundles': {'quick': 100, 'thorough': 600}}
-SHARD_TIMEOUT = {'quick': 240, 'thorough': 1500}
+SHARD_TIMEOUT = {'quick': 600, 'thorough': 3000}
 
 COL_TYPES = ['Any', 'Any', 'Any', 'Any', 'Text', 'Int', 'Numeric', 'Bool', 'Date', 'DateTime:America/New_York', 'Choice', 'ChoiceList',
              'Ref:T', 'RefList:T', 'Attachments']
@@ -137,7 +137,8 @@ class Transport(object):
   def start(self):
     if self.p is not None:
       self.finish()
-    self.p = self.EngineProc(contracts='C24')
+    # generous per-call budget: a self-referential value costs the engine seconds per cell on a loaded machine
+    self.p = self.EngineProc(contracts='C24', timeout=600.0)
     p = self.p
     p.init_doc()
     p.call('verif_py', 'props.C24_inproc', 'install', None)
@@ -393,7 +394,7 @@ def run_history(spec, acc):
       report_contracts(acc, h.proc.call('verif_drain_contracts'))
 
   mon = InSitu()
-  h = histories.History(acc, spec['hseed'], [mon], spec['steps'], proc_kw={'contracts': 'C24'}, avoid_open_triggers=False)
+  h = histories.History(acc, spec['hseed'], [mon], spec['steps'], proc_kw={'contracts': 'C24', 'timeout': 300.0}, avoid_open_triggers=False)
   h.run()
 
 
